@@ -534,7 +534,9 @@ class FD:
             return _BUILTINS[name](*[self.eval(a, env) for a in e.args])
         if isinstance(e.func, ast.Name) and e.func.id in env and callable(env[e.func.id]):
             args = [self.eval(a, env) for a in e.args]
-            return env[e.func.id](*args)
+            kwargs = {k.arg: self.eval(k.value, env) for k in e.keywords}
+            kwargs.update(star_kwargs)
+            return env[e.func.id](*args, **kwargs)
         if isinstance(e.func, ast.Attribute):
             recv = self.eval(e.func.value, env)
             args = [self.eval(a, env) for a in e.args]
